@@ -142,6 +142,13 @@ class Y:
         return 'Y(%s)' % self.tag
 
 
+class YMissing(Y):
+    """a missing= factory (called without arguments) that is a scheduling point"""
+    def __call__(self):
+        Y.__call__(self, None)
+        return {}
+
+
 def scrub(text):
     text = re.sub(r'0x[0-9a-fA-F]+', '0xADDR', text)
     text = re.sub(r'File "[^"]*", line \d+', 'File "F", line N', text)
@@ -183,6 +190,8 @@ def pool():
         return call
     shared_vars = (S(v=Vars({'owner': None})), A.v.owner, Y('v1'), S.v.owner, Y('v2'), {'owner': S.v.owner})
     tree = lambda: {'v': 1, 'kids': [{'v': 2, 'kids': []}]}
+    from glom import Assign
+    shared_assign = (Assign('a.b.c', T['v'], missing=YMissing('am')), Y('a2'))
     gm = Glommer()
     gm.register(P.UA, get=lambda o, k: 'glommer-handler:%s' % k)
     return [
@@ -215,6 +224,9 @@ def pool():
         # calls made through a Glommer with a registry of its own (the module-level registry treats these types differently)
         ('glommer-type-1', lambda: P.UA(), ('x', Y('m1')), gm.glom),
         ('glommer-type-2', lambda: {'o': P.UB(), 'l': [P.UA()]}, {'v': ('o', Y('m2'), 'x'), 'w': ('l', Y('m3'), ['x'])}, gm.glom),
+        # ONE back-filling Assign: the value comes from each call's own target, the missing= factory is a scheduling point
+        ('shared-assign-1', lambda: {'v': 'first'}, shared_assign),
+        ('shared-assign-2', lambda: {'v': 'second'}, shared_assign),
     ]
 
 
@@ -407,7 +419,7 @@ def compress(trace):
     return out
 
 
-PAIRS = [(0, 1), (0, 0), (2, 3), (2, 2), (4, 5), (4, 4), (6, 6), (7, 8), (0, 7), (6, 2), (4, 0), (5, 8), (9, 10), (9, 9), (11, 7), (12, 13), (14, 15), (17, 18), (14, 4), (15, 5), (16, 7), (21, 4), (22, 5)]
+PAIRS = [(0, 1), (0, 0), (2, 3), (2, 2), (4, 5), (4, 4), (6, 6), (7, 8), (0, 7), (6, 2), (4, 0), (5, 8), (9, 10), (9, 9), (11, 7), (12, 13), (14, 15), (17, 18), (14, 4), (15, 5), (16, 7), (21, 4), (22, 5), (23, 24), (23, 23)]
 
 
 def gen_lines(tier):
